@@ -528,7 +528,7 @@ fn main() {
         }
     }
     // (D) seeded random frame sets with 2..=4 (sometimes up to 8) frames over the full universe
-    let nrand = if args.thorough() { 600 } else { 40 };
+    let nrand = if args.thorough() { 300 } else { 40 };
     for k in 0..nrand {
         let size = if rng.chance(1, 6) { rng.range(5, 8) } else { rng.range(2, 4) };
         let mut s: Vec<Fr> = Vec::new();
